@@ -1744,5 +1744,99 @@ theorem upd_spec (height : Nat) (kind : HashKind) (dirty : List Path) {S : Node}
           | none => rw [hsh] at hm; simp [Matches] at hm
           | some sh => exact dirtyBelow_of_prefix (by simpa [topKey] using flatS_topKey_prefix hsh) h
 
+theorem hash_repr {tr : Trie} {t : Node} {n : Nat} (hr : Repr tr t n) :
+    ∃ tr', hash tr = some (rawHash tr.kind t, tr') ∧ Repr tr' t n ∧ tr'.kind = tr.kind := by
+  cases hr.wf with
+  | inl e =>
+    subst e
+    have hroot : tr.rootKey = none := hr.root
+    exact ⟨tr, by simp [hash, hroot, rawHash], hr, rfl⟩
+  | inr hwf =>
+    have hroot : tr.rootKey = some (topKey [] t) := by rw [hr.root, root_of_wf hwf]
+    obtain ⟨nd, s', u1, u2, u3, _, u5, u6⟩ := upd_spec tr.height tr.kind tr.dirty hwf [] tr.store (tr.height + 2)
+      (fun k _ => hr.agree k) (fun K nd _ hs => hr.cache K nd hs) (by simp [hr.height]) (by rw [hr.height]; omega)
+    refine ⟨{ tr with store := s', dirty := [] }, ?_, ?_, rfl⟩
+    · simp only [hash, hroot, u1]
+      congr 2
+      simp only [relPath]
+      cases hwf with
+      | value _ => simpa [nodeHash, topKey, body, rawHash] using u2
+      | bin _ _ => simpa [nodeHash, topKey, body] using u2
+      | @edge p c n' fl hp hc hne =>
+        have : p.isEmpty = false := by cases p <;> simp_all
+        simp only [topKey, List.nil_append, nodeHash, this, Bool.false_eq_true, if_false, rawHash, edgeHash]
+        simp only [body] at u2
+        rw [u2]
+    · exact ⟨hr.height, hr.wf, fun k => u5 k List.nil_prefix, hr.root,
+        fun K nd' hs => Or.inl (u6 K nd' List.nil_prefix hs)⟩
+
+/-- operation sequences without deletions: every write has a non-zero value -/
+def OpNonZero : Op → Prop
+  | .put _ v => v ≠ .felt 0
+  | .hash => True
+
+def OpKeyLen (n : Nat) : Op → Prop
+  | .put key _ => key.length = n
+  | .hash => True
+
+def NonZeroOps (ops : List Op) : Prop := ∀ op ∈ ops, OpNonZero op
+
+theorem repr_empty (n : Nat) (kind : HashKind) : Repr (Trie.empty n kind) .nil n :=
+  ⟨rfl, Or.inl rfl, by intro k; simp [Trie.empty, sget, flatS, Matches], rfl,
+    by intro K nd h; simp [Trie.empty, sget] at h⟩
+
+theorem stepOp_inv {kind : HashKind} {n : Nat} {tr : Trie} {t : Node} {m : Path → HTerm}
+    (hr : Repr tr t n) (hk : tr.kind = kind) (hi : Inv kind n t m) (op : Op)
+    (hv : OpKeyLen n op) (hnz : OpNonZero op) :
+    ∃ tr' t', stepOp tr op = some tr' ∧ Repr tr' t' n ∧ tr'.kind = kind ∧ Inv kind n t' (absStep m op) := by
+  cases op with
+  | hash =>
+    obtain ⟨tr', h1, h2, h3⟩ := hash_repr hr
+    exact ⟨tr', t, by simp [stepOp, h1], h2, h3.trans hk, hi⟩
+  | put key v =>
+    simp only [OpKeyLen, OpNonZero] at hv hnz
+    have hstep := step_inv hi (.put key v) hv
+    have hb : (v == HTerm.felt 0) = false := by simpa using hnz
+    simp only [Trie2.step, Trie2.update, hb, Bool.false_eq_true, if_false] at hstep
+    have fin : (∃ tr', put tr key v = some tr' ∧ Repr tr' (ins t key v).1 n ∧ tr'.kind = tr.kind) →
+        ∃ tr' t', stepOp tr (.put key v) = some tr' ∧ Repr tr' t' n ∧ tr'.kind = kind ∧
+          Inv kind n t' (absStep m (.put key v)) := by
+      rintro ⟨tr', a, b, c⟩
+      exact ⟨tr', _, by simpa [stepOp] using a, b, c.trans hk, hstep⟩
+    apply fin
+    cases hr.wf with
+    | inl e => subst e; exact put_empty hr key hv v hnz
+    | inr hwf =>
+      cases hs : sget tr.store key with
+      | none => exact put_absent hr hwf key hv v hnz hs
+      | some x => exact put_present hr key hv v hnz (by rw [hs]; simp)
+
+theorem foldlM_inv {kind : HashKind} {n : Nat} (ops : List Op) (hv : ValidOps n ops) (hnz : NonZeroOps ops) :
+    ∀ (tr : Trie) (t : Node) (m : Path → HTerm), Repr tr t n → tr.kind = kind → Inv kind n t m →
+      ∃ tr' t', ops.foldlM stepOp tr = some tr' ∧ Repr tr' t' n ∧ tr'.kind = kind ∧
+        Inv kind n t' (ops.foldl absStep m) := by
+  induction ops with
+  | nil => intro tr t m hr hk hi; exact ⟨tr, t, rfl, hr, hk, hi⟩
+  | cons op rest ih =>
+    intro tr t m hr hk hi
+    have hv1 : OpKeyLen n op := by
+      have := hv op (List.mem_cons_self ..)
+      cases op <;> simpa [OpKeyLen] using this
+    obtain ⟨tr1, t1, s1, r1, k1, i1⟩ := stepOp_inv hr hk hi op hv1 (hnz op (List.mem_cons_self ..))
+    obtain ⟨tr2, t2, s2, r2, k2, i2⟩ := ih (fun o ho => hv o (List.mem_cons_of_mem _ ho))
+      (fun o ho => hnz o (List.mem_cons_of_mem _ ho)) tr1 t1 _ r1 k1 i1
+    exact ⟨tr2, t2, by simp [List.foldlM_cons, s1, s2], r2, k2, i2⟩
+
+theorem runOps_nonzero (kind : HashKind) (n : Nat) (ops : List Op) (hv : ValidOps n ops) (hnz : NonZeroOps ops) :
+    runOps n kind ops = some (Spec.root kind n (absRun ops)) := by
+  obtain ⟨tr, t, s, r, k, i⟩ := foldlM_inv (kind := kind) ops hv hnz (Trie.empty n kind) .nil
+    (fun _ => HTerm.felt 0) (repr_empty n kind) rfl
+    ⟨Or.inl rfl, by simp [CacheOK], fun _ _ => by simp [Trie2.get]⟩
+  obtain ⟨tr', h1, _, _⟩ := hash_repr r
+  simp only [runOps, s, Option.bind, h1, Option.map_some, Option.some.injEq]
+  rw [k, rawHash_eq_spec kind i.wf]
+  simp only [Spec.root, absRun]
+  rw [spec_node_congr kind n _ _ i.sem]
+
 end Legacy
 end Juno.C01
